@@ -60,6 +60,7 @@ partial def pStmt : P Stmt
   | "var" :: x :: ty :: r => do let (e, r) ← pOptExpr r; pure (.varDecl x (ty == "bool") e, r)
   | "call" :: r => do let (e, r) ← pExpr r; pure (.exprStmt e, r)
   | "discard" :: r => do let (e, r) ← pExpr r; pure (.discard e, r)
+  | "panic" :: r => do let (e, r) ← pExpr r; pure (.panicS e, r)
   | "if" :: r => do
     let (c, r) ← pExpr r
     let (t, r) ← pStmt r
